@@ -232,6 +232,9 @@ impl Screen {
             self.ensure_hbounds();
         }
         self.ensure_vbounds(None);
+
+        // Rows that no longer exist can not be dirty.
+        self.dirty.retain(|&y| y < lines);
     }
 
     // Ensure the cursor is within horizontal screen bounds."""
